@@ -45,7 +45,9 @@ def main():
                 for x in ax:
                     chk.trusted.append("axiom " + x)
         chk.trusted.append("Coq 8.16.1 kernel incl. vm_compute (no native_compute) and primitive floats/ints")
-        if a.tier == "thorough" and os.path.exists(os.path.join(common.COQ, "Properties", a.cid + ".vo")):
+        # (coqchk re-checks every dependency incl. Coquelicot: 20-40 min per property file, so it is opt-in here;
+        #  harness/coqchk_all.sh runs it ONCE over all property files)
+        if os.environ.get("VERIF_COQCHK") == "1" and os.path.exists(os.path.join(common.COQ, "Properties", a.cid + ".vo")):
             # independent re-check of the compiled property file and everything it depends on
             import subprocess
             p = subprocess.run(["timeout", "3000", "coqchk", "-Q", common.COQ, "SSP", "-o", "SSP.Properties." + a.cid],
